@@ -63,6 +63,20 @@ CLAIMED = {
         text="Bounded liveness: never more than 24 idle ticks in a row, session ends within 4*(instructions+commands)+64 ticks of the simulated clock, no panic when resuming at PC=0xFFFF / outside user space / on HALT. Sampling, not proof.",
         note="Trusted: tick hook = one run-loop iteration; RefDbg for the instruction count.",
     ),
+    "C14": dict(
+        category="exploration",
+        ref="DESIGN.md §5 C14",
+        technique="deterministic simulation: one seeded script delivered through every transport configuration (argument, stdin, split, simulated terminal; ; vs newline; end of input at a command boundary), differential between deliveries plus lockstep check of parse results against generator-known meaning",
+        text="Transport half decided by simulation: all deliveries of a script must have identical meaning (accepted commands, rejected lines, pause snapshots, instruction counts, end, stdout, minimal-mode stderr). Grammar half sampled: commands in random documented spellings must parse to the generator-known meaning, lines broken in a known way must be rejected without effect, no delivery panics. The exhaustive short-string enumeration of the quantifier is not attempted.",
+        note="Trusted: help.txt + parser doc comments as the grammar; Debug text of the real Command as observation; hooks. Known finding: `sudo`.",
+    ),
+    "C20": dict(
+        category="exploration",
+        ref="DESIGN.md §5 C20",
+        technique="simulation of a reactive component on a simulated key device: exhaustive short key histories plus seeded long ones against a reference line editor after every key (weakest fit for the family: no fault kind beyond pre-existing history, stated)",
+        text="Every key history of length <=3 (quick) / <=4 (thorough) over a 14-key alphabet from an empty and a non-empty history is enumerated, plus 60k/4M seeded histories of up to 47 keys; after every key the real editor's line, cursor, history focus and end-of-line equal RefEditor's, the cursor stays inside the line, nothing panics; the real read() path returns the reference's commands and history.",
+        note="Trusted: RefEditor (doc comments of terminal.rs, Vim word rules with adopted end-of-line corner); guarded constructor without history file.",
+    ),
 }
 
 NOT_APPLICABLE = {
@@ -75,7 +89,7 @@ NOT_APPLICABLE = {
     "C18": "pure function of (flag, program); no stream, fault or history (DESIGN.md §5 C18)",
 }
 
-PENDING = {'C06': 'claimed in DESIGN.md but its check is not built yet in this commit; will move to checks when registered', 'C08': 'claimed in DESIGN.md but its check is not built yet in this commit; will move to checks when registered', 'C14': 'claimed in DESIGN.md but its check is not built yet in this commit; will move to checks when registered', 'C19': 'claimed in DESIGN.md but its check is not built yet in this commit; will move to checks when registered', 'C20': 'claimed in DESIGN.md but its check is not built yet in this commit; will move to checks when registered'}
+PENDING = {'C06': 'claimed in DESIGN.md but its check is not built yet in this commit; will move to checks when registered', 'C08': 'claimed in DESIGN.md but its check is not built yet in this commit; will move to checks when registered', 'C19': 'claimed in DESIGN.md but its check is not built yet in this commit; will move to checks when registered', }
 
 def main():
     checks = []
